@@ -264,12 +264,111 @@ func templateDataRule(o *Ob) {
 		o.Site(sts[0], "Data.Status = "+v)
 		o.Check(strings.Contains(v, ".Status("), "data-status-src", "Data.Status must be the status of the alerts (firing iff any fires), is "+v, sts[0])
 	}
-	// common labels: only deletes after the initial copy from the first alert
-	for _, in := range AllInstrs(fn) {
-		if isBuiltinCall("delete")(in) {
-			c := in.(*ssa.Call)
-			o.Site(in, "common set loses a key: "+e.X(fn, c.Call.Args[0]))
+	// common labels / annotations = what the first alert has, minus every pair some later alert does not share:
+	// each set starts as a copy of the first alert's, every later alert is compared with both sets, a pair is
+	// deleted exactly when that alert's value differs, and the comparison may stop early only when both sets are empty
+	for _, kind := range []string{"Labels", "Annotations"} {
+		set := "(model.LabelSet).Clone(p4[0].Alert." + kind + ")"
+		var del *ssa.Call
+		for _, in := range AllInstrs(fn) {
+			if isBuiltinCall("delete")(in) {
+				c := in.(*ssa.Call)
+				if e.X(fn, c.Call.Args[0]) == set {
+					o.Check(del == nil, "common-delete-once|"+kind, "pairs are removed from the common "+kind+" in more than one place", c)
+					del = c
+				}
+			}
 		}
+		if !o.Check(del != nil, "common-delete|"+kind, "the common "+kind+" are no longer reduced by the later alerts (or no longer start from the first alert's "+kind+")", fnFirst(fn)) {
+			continue
+		}
+		o.Site(del, "common "+kind+" lose a pair")
+		inner := e.LoopOf(del)
+		if !o.Check(inner != nil, "common-inner|"+kind, "pairs must be checked in a loop over the common set", del) {
+			continue
+		}
+		coll, _ := e.RangeOver(inner)
+		o.Check(coll == set && len(e.EarlyExits(inner)) == 0, "common-inner-range|"+kind, "every pair of the common "+kind+" must be compared, loop ranges over "+clip(coll), del)
+		k := "next(range(" + set + "))#1"
+		v := "next(range(" + set + "))#2"
+		o.Check(e.X(fn, del.Call.Args[1]) == k, "common-delete-key|"+kind, "the pair removed must be the one compared", del)
+		same := LRe(`\(`+regexpQuote(v)+` == slice\(p4,lo=1\)\[i\]\.Alert\.`+kind+`\[`+regexpQuote(k)+`\]\)|\(slice\(p4,lo=1\)\[i\]\.Alert\.`+kind+`\[`+regexpQuote(k)+`\] == `+regexpQuote(v)+`\)`, true)
+		o.Guarded(del, "common-delete-guard|"+kind, "removing a pair from the common "+kind, same.Neg())
+		o.Check(!loopBackWithout(o, inner, IsInstr(del), e.CutContradicting(same.Neg())), "common-delete-forced|"+kind, "a pair a later alert does not share can stay in the common "+kind, del)
+		// the outer loop: every later alert, both sets each time
+		var outer *Loop
+		for _, l := range e.Loops(fn) {
+			if l.Header != inner.Header && l.Blocks[inner.Header.Index] && (outer == nil || len(l.Blocks) < len(outer.Blocks)) {
+				outer = l
+			}
+		}
+		if o.Check(outer != nil, "common-outer|"+kind, "the common "+kind+" must be compared with every later alert", del) {
+			oc, _ := e.RangeOver(outer)
+			o.Check(oc == "slice(p4,lo=1)" || oc == "p4", "common-outer-range|"+kind, "the comparison must run over the alerts after the first, runs over "+clip(oc), del)
+			rangeInstr := func(in ssa.Instruction) bool {
+				r, ok := in.(*ssa.Range)
+				return ok && e.X(fn, r.X) == set && inner.Blocks[blockOfUse(r).Index]
+			}
+			// stopping early needs every set this loop reduces to be empty already
+			for _, k2 := range []string{"Labels", "Annotations"} {
+				set2 := "(model.LabelSet).Clone(p4[0].Alert." + k2 + ")"
+				reducedHere := k2 == kind
+				for _, in := range AllInstrs(fn) {
+					if isBuiltinCall("delete")(in) && outer.Blocks[in.Block().Index] && e.X(fn, in.(*ssa.Call).Call.Args[0]) == set2 {
+						reducedHere = true
+					}
+				}
+				if !reducedHere {
+					continue
+				}
+				empty := L("(len("+set2+") == 0)", true)
+				o.LoopExitsGuarded(outer, "common-early-exit|"+kind+"|"+k2, "the comparison with later alerts may stop early only when every common set it reduces is empty", empty)
+			}
+			o.Check(!loopBackWithout(o, outer, rangeInstr, nil), "common-skip|"+kind, "a later alert can be skipped when the common "+kind+" are reduced", del)
+		}
+		// and what the data carries is that set
+		n := 0
+		var cloneCall ssa.Value
+		for _, in := range AllInstrs(fn) {
+			if c, ok := in.(*ssa.Call); ok && e.X(fn, c) == set {
+				cloneCall = c
+			}
+		}
+		fromSet := func(v ssa.Value) bool {
+			return cloneCall != nil && (v == cloneCall || e.DerivesFrom(v, true, func(x ssa.Value) bool { return x == cloneCall }))
+		}
+		for _, in := range AllInstrs(fn) {
+			if m, ok := in.(*ssa.MapUpdate); ok && strings.HasSuffix(e.X(fn, m.Map), "Data.Common"+kind) {
+				n++
+				o.Check(fromSet(m.Key) && fromSet(m.Value), "common-result|"+kind, "Data.Common"+kind+" must be filled from the reduced set", m)
+			}
+		}
+		for _, st := range e.StoresToField(fn, "am/template.Data", "Common"+kind) {
+			if fromSet(st.Val) {
+				n = 1
+				continue
+			}
+			// a fresh map the pairs of the reduced set are put into (before or after it is stored in the field)
+			filled := false
+			for _, in := range AllInstrs(fn) {
+				if m, ok := in.(*ssa.MapUpdate); ok && m.Map == st.Val {
+					if o.Check(fromSet(m.Key) && fromSet(m.Value), "common-result|"+kind, "Data.Common"+kind+" must be filled from the reduced set", m) {
+						filled = true
+					}
+				}
+			}
+			if filled {
+				n = 1
+			} else if n == 0 {
+				if _, isMk := st.Val.(*ssa.MakeMap); !isMk {
+					o.Fail("common-result|"+kind, "Data.Common"+kind+" must be filled from the reduced set, is "+clip(e.X(fn, st.Val)), st)
+				}
+			}
+		}
+		if n > 1 {
+			n = 1
+		}
+		o.Check(n == 1, "common-result-site|"+kind, "Data.Common"+kind+" must be filled from the reduced set in one place", del)
 	}
 	// webhook truncation
 	tr := o.Fn("am/notify/webhook.truncateAlerts")
@@ -494,5 +593,78 @@ func init() {
 	reg("C20", "C20.10", "T1,T12", "truncation never cuts beyond the text: every prefix cut x[:h] in TruncateInRunes, TruncateInBytes and the webhook's truncateAlerts is made under evidence that h ≤ len(x) (a bound on the same sequence, a shrinking prefix, or min)", func(o *Ob) {
 		sliceBoundsRule(o)
 		o.MinSites(4)
+	})
+}
+
+// blockOfUse: the block in which a range iterator is advanced (its Next), which is the header of its loop.
+func blockOfUse(r *ssa.Range) *ssa.BasicBlock {
+	if refs := r.Referrers(); refs != nil {
+		for _, u := range *refs {
+			if nx, ok := u.(*ssa.Next); ok {
+				return nx.Block()
+			}
+		}
+	}
+	return r.Block()
+}
+
+// webhookOutcomeRule: the webhook integration's verdict.  A request that could not be completed (connection error,
+// the integration's own per-request timeout, a cancelled attempt) is recoverable: the retry stage, not the
+// integration, knows how much of the flush is left.  A completed request is judged by Retrier.Check on the response
+// status, and its verdict is returned as it is.  The batch sent is the truncated one, with the count reported.
+func webhookOutcomeRule(o *Ob) {
+	e := o.E
+	fn := o.Fn("(*am/notify/webhook.Notifier).Notify")
+	post := o.One(e.Calls(fn, "am/notify.PostJSON"), "post", "the webhook must post its message", fn)
+	o.Site(post, "webhook POST")
+	px := e.X(fn, post.(*ssa.Call))
+	failed := L("("+px+"#1 == nil)", false)
+	r := (&Walk{Fn: fn, Cut: e.CutContradicting(failed)}).After(post)
+	rets := r.Returns()
+	o.Check(len(rets) >= 1, "post-error-exit", "no exit for a failed POST", post)
+	for _, ret := range rets {
+		for _, v := range e.ValStrs(fn, e.RetVals(r, ret, 0)) {
+			o.Check(v == "true", "post-error-recoverable", "a POST that could not be completed must be reported as recoverable (the retry stage decides whether time is left), is "+clip(v), ret)
+		}
+		for _, v := range e.ValStrs(fn, e.RetVals(r, ret, 1)) {
+			o.Check(v != "nil", "post-error-reported", "a failed POST is reported as success", ret)
+		}
+	}
+	chk := o.One(e.Calls(fn, "(*am/notify.Retrier).Check"), "check", "a completed request must be judged by Retrier.Check", fn)
+	o.Check(strings.HasSuffix(e.Arg(chk, 1), ".StatusCode") && strings.HasPrefix(e.Arg(chk, 1), px+"#0"), "check-status", "Retrier.Check must judge the status of this response, judges "+clip(e.Arg(chk, 1)), chk)
+	cx := e.X(fn, chk.(*ssa.Call))
+	r2 := (&Walk{Fn: fn}).After(chk)
+	for _, ret := range r2.Returns() {
+		for _, v := range e.ValStrs(fn, e.RetVals(r2, ret, 0)) {
+			o.Check(v == cx+"#0", "check-verdict", "the verdict of Retrier.Check must be returned as it is, returns "+clip(v), ret)
+		}
+		for _, v := range e.ValStrs(fn, e.RetVals(r2, ret, 1)) {
+			o.Check(v == "nil" || strings.Contains(v, cx+"#1"), "check-error", "the error of Retrier.Check must be returned (possibly with a reason), returns "+clip(v), ret)
+		}
+	}
+	errNil := L("("+cx+"#1 == nil)", true)
+	{
+		r3 := (&Walk{Fn: fn, Cut: e.CutContradicting(errNil.Neg())}).After(chk)
+		for _, ret := range r3.Returns() {
+			for _, v := range e.ValStrs(fn, e.RetVals(r3, ret, 1)) {
+				o.Check(v != "nil", "check-error-dropped", "a response Retrier.Check rejects is reported as success", ret)
+			}
+		}
+	}
+	// what is sent: the truncated batch and the count of what was cut
+	tr := o.One(e.Calls(fn, "am/notify/webhook.truncateAlerts"), "truncate", "the webhook must apply max_alerts", fn)
+	o.Check(e.Arg(tr, 0) == "recv.conf.MaxAlerts" && e.Arg(tr, 1) == "p1", "truncate-args", "truncation must apply the configured max_alerts to the batch", tr)
+	tx := e.X(fn, tr.(*ssa.Call))
+	gd := o.One(e.Calls(fn, "am/notify.GetTemplateData"), "data", "the webhook message must be built from the template data of the batch", fn)
+	o.Check(e.Arg(gd, 2) == tx+"#0", "data-batch", "the message must list the truncated batch, lists "+clip(e.Arg(gd, 2)), gd)
+	for _, st := range e.StoresToField(fn, "am/notify/webhook.Message", "TruncatedAlerts") {
+		o.Check(e.X(fn, st.Val) == tx+"#1", "truncated-count", "the message must report how many alerts were cut, reports "+clip(e.X(fn, st.Val)), st)
+	}
+}
+
+func init() {
+	reg("C20", "C20.12", "T6,T11", "webhook verdict: a POST that could not be completed is recoverable; a completed one is judged by Retrier.Check on its status and that verdict is returned unchanged; the message lists the truncated batch and the count of what was cut", func(o *Ob) {
+		webhookOutcomeRule(o)
+		o.MinSites(1)
 	})
 }
